@@ -331,15 +331,19 @@ def has_signature(spec, sc, sig, history=()):
     return None
 
 
+MINIMISE_WALL_S = float(os.environ.get('VERIF_MINIMISE_WALL', '90'))
+
+
 def minimise(spec, sc, sig, budget=400, history=()):
     cur = sc
     spent = 0
     improved = True
-    while improved and spent < budget:
+    deadline = time.time() + MINIMISE_WALL_S
+    while improved and spent < budget and time.time() < deadline:
         improved = False
         for cand in spec.shrink(cur):
             spent += 1
-            if spent > budget:
+            if spent > budget or time.time() > deadline:
                 break
             if has_signature(spec, cand, sig, history) is not None:
                 cur = cand
@@ -354,7 +358,8 @@ def minimise_history(spec, sc, sig, history, budget=80):
     cur = list(history)
     n = 2
     spent = 0
-    while len(cur) >= 1 and spent < budget:
+    deadline = time.time() + MINIMISE_WALL_S
+    while len(cur) >= 1 and spent < budget and time.time() < deadline:
         size = max(1, len(cur) // n)
         reduced = False
         for start in range(0, len(cur), size):
@@ -563,6 +568,8 @@ def check(prop, tier, verif_seed, n=None, workers=None, out=sys.stdout):
             print('  %s needs process history: %d earlier scenario(s) after '
                   'minimisation (%d before)' % (sig, len(history),
                                                 len(r['history'])), file=out)
+        if n_new > 6:
+            budget = 0      # many distinct signatures: minimise the first six
         small, spent = minimise(spec, sc, sig, budget=budget,
                                 history=history)
         got = has_signature(spec, small, sig, history)
